@@ -23,6 +23,21 @@ body=s[i:j]
 body=re.sub(r'\*\*\d+ were repaired\*\*',f'**{nf} were repaired**',body); body=re.sub(r'\*\*\d+ stay open\*\*',f'**{no} stay open**',body)
 k=body.index('| property | finding |'); body=body[:k]+"\n".join(ftab)+"\n\n"
 s=s[:i]+body+s[j:]
+# seeds table
+seeds=sorted(os.listdir('seeded'))
+qrows=["| seed | property | change (abridged) | outcome of `./check` |","|---|---|---|---|"]
+first_input=after=tie=0
+for sd in seeds:
+    m=json.load(open(f'seeded/{sd}/meta.json')); r=m['result']
+    if r.startswith('caught'): first_input+=1
+    elif 'caught with a failing input' in r or 'caught after' in r: after+=1
+    else: tie+=1
+    qrows.append(f"| {sd} | {m['property']} | {m['change'][:150].replace('|','/')} | {r[:260].replace('|','/')} |")
+i=s.index('| seed | property | change (abridged)'); j=s.index('### 13.6 Trusted base')
+s=s[:i]+"\n".join(qrows)+"\n\n"+s[j:]
+s=re.sub(r'Of the \d+ seeds, \d+ were reported with a concrete failing input by the checks as first written; \d+ were',f'Of the {len(seeds)} seeds, {first_input} were reported with a concrete failing input by the checks as first written; {after} were',s)
+s=re.sub(r'worktree: all \d+ demonstrations',f'worktree: all {len(seeds)} demonstrations',s)
+print('seeds',len(seeds),first_input,after,tie)
 s=re.sub(r'; \d+ property theorems in',f'; {tot} property theorems in',s); s=re.sub(r'for\s+all \d+ property theorems',f'for all {tot} property theorems',s)
 open('DESIGN.md','w').write(s)
 print('fixed',nf,'open',no,'theorems',tot)
